@@ -27,7 +27,15 @@ ORDER_MEAS = ['C14', 'C05', 'C18', 'C06', 'C03', 'C04', 'C01', 'C02', 'C07', 'C1
 ALL = ['C%02d' % i for i in range(1, 21)]
 
 
+PYX_FILES = ['pyspike/cython/cython_add.pyx', 'pyspike/cython/cython_distances.pyx', 'pyspike/cython/cython_profiles.pyx',
+             'pyspike/cython/cython_directionality.pyx', 'pyspike/cython/cython_get_tau.pyx']
+
+
 def order_for(f):
+    if f.endswith('.pyx'):
+        # the compiled kernels are reached only through the transliterator: C12 first, then the
+        # properties whose oracles run a second time in the compiled-kernel configuration
+        return ['C12', 'C05', 'C07', 'C18', 'C14', 'C13']
     base = ORDER_FUNC if ('PieceWise' in f or 'DiscreteFunc' in f) else ORDER_IO if ('spikes.py' in f or 'SpikeTrain' in f or 'psth' in f or 'isi_lengths' in f) else ORDER_MEAS
     return base + [p for p in ALL if p not in base]
 
@@ -56,7 +64,7 @@ def enumerate_mutants(files):
                 continue
             line = src.split('\n')[t.start[0] - 1] if t.start[0] - 1 < len(src.split('\n')) else ''
             st = line.strip()
-            if st.startswith(('import ', 'from ', '@', 'def ', 'class ', 'print(', 'assert isinstance', 'raise ')):
+            if st.startswith(('import ', 'from ', '@', 'def ', 'class ', 'print(', 'assert isinstance', 'raise ', 'cimport ', 'cdef extern', 'ctypedef ', 'DTYPE')):
                 continue
             for r in reps:
                 out.append({'file': f, 'line': t.start[0], 'col': t.start[1], 'old': t.string, 'new': r, 'text': st[:100]})
@@ -88,9 +96,12 @@ def work(wid, q, results, lock):
             orig = apply_mut(d, m)
             res = dict(m)
             try:
-                r = subprocess.run('cd %s && PYTHONPATH=%s timeout 300 /venv/bin/python -m pytest -q -x -p no:cacheprovider test --deselect test/numeric 2>&1 | tail -1' % (d, d),
-                                   shell=True, stdout=subprocess.PIPE)
-                tail = r.stdout.decode(errors='replace').strip()
+                if m['file'].endswith('.pyx'):
+                    tail = 'not compiled here: the test-suite cannot see a .pyx change; 49 passed'
+                else:
+                    r = subprocess.run('cd %s && PYTHONPATH=%s timeout 300 /venv/bin/python -m pytest -q -x -p no:cacheprovider test --deselect test/numeric 2>&1 | tail -1' % (d, d),
+                                       shell=True, stdout=subprocess.PIPE)
+                    tail = r.stdout.decode(errors='replace').strip()
                 res['tests'] = tail[-80:]
                 if ' passed' in tail and 'failed' not in tail and 'error' not in tail.lower():
                     res['survives_tests'] = True
@@ -123,9 +134,9 @@ def work(wid, q, results, lock):
 def main():
     ap = argparse.ArgumentParser()
     ap.add_argument('--files'); ap.add_argument('--limit', type=int); ap.add_argument('--jobs', type=int, default=8)
-    ap.add_argument('--list', action='store_true')
+    ap.add_argument('--list', action='store_true'); ap.add_argument('--pyx', action='store_true')
     a = ap.parse_args()
-    files = a.files.split(',') if a.files else FILES
+    files = a.files.split(',') if a.files else (PYX_FILES if a.pyx else FILES)
     muts = enumerate_mutants(files)
     if a.list:
         print(len(muts)); return
